@@ -137,4 +137,117 @@ def obligations(tier):
         outside=["larger tables (more than 64 entries change the bucket count)", "colon mode (not used by qmail-smtpd)"],
         claim="constmap_init + constmap find a key iff some entry equals it case-insensitively (the contract used where constmap is cut)",
         expect_witnesses=lambda p: ["done"] + (["found", "not_found_same_length", "found_other_case"] if p["EL"] == p["QL"] else [])))
+    obls += _control_file_obligations(tier)      # the tables above are what the control FILES say (defined below)
+    return obls
+
+
+# ---- control files -> tables (tag h2).  The obligations above give rcpthosts()/addrallowed() symbolic TABLES; these decide that
+# the tables the programs use are exactly what the control FILES say.  control_file_*_ref are borrowed by C10 (getcontrols /
+# regetcontrols read locals, virtualdomains, percenthack through control_readfile).
+def _control_file_obligations(tier):
+    q = tier == "quick"
+    obls = []
+    CTL_REPO = ["stralloc_opys.c", "stralloc_opyb.c", "stralloc_cat.c", "stralloc_catb.c", "stralloc_copy.c", "stralloc_pend.c",
+                "byte_copy.c", "scan_ulong.c", "substdio.c"]
+    kinds = [
+        (0, "control_readfile_ref", [0, 3, 5, 6] if q else [0, 1, 2, 3, 4, 5, 6, 7, 8],
+         "control_readfile on every file of N bytes (any bytes, one read error anywhere): 1 and exactly the entries of the file in order "
+         "(one per line, trailing spaces/tabs removed, empty lines and # comments dropped, last line without newline counts), NUL-separated; "
+         "missing file: 0, or with flagme and a control/me that was read 1 and that name; other open/read errors: -1",
+         lambda p: ["open_error", "missing_file_default_me", "missing_file", "read_error", "list", "no_entries"]
+                   + (["nul_in_file_undetermined", "last_line_without_newline_counts"] if p["N"] >= 1 else [])
+                   + (["two_entries", "comment_then_entry", "trailing_blanks_removed"] if p["N"] >= 3 else [])),
+        (1, "control_readline_ref", [0, 3, 6, 8] if q else range(0, 13),
+         "control_rldef/control_readline on every file of N bytes: 1 and the first line without trailing spaces/tabs (later lines ignored); "
+         "missing file: me if asked for and supplied, else the literal default, else 0; open/read errors: -1",
+         lambda p: ["open_error", "missing_file_default_me", "missing_file_literal_default", "missing_file", "read_error", "line"]
+                   + (["nul_in_line_undetermined", "trailing_blanks_removed", "no_newline_at_end"] if p["N"] >= 1 else [])
+                   + (["later_lines_ignored"] if p["N"] >= 2 else [])),
+        (2, "control_readint_ref", [0, 3, 6, 9] if q else range(0, 11),
+         "control_readint on every file of N bytes: a first line that is a decimal number of <= 9 digits (trailing blanks allowed) gives 1 and "
+         "that number; missing file: 0 and the caller's default untouched; whenever 0 is returned the default is untouched; open/read errors: -1",
+         lambda p: ["open_error", "missing_file", "read_error", "not_a_number_default_kept"]
+                   + (["number"] if p["N"] >= 1 else [])
+                   + (["number_with_trailing_blanks", "junk_after_digits_accepted"] if p["N"] >= 2 else [])),
+    ]
+    for kind, nm, ns, claim, wit in kinds:
+        obls.append(Obl(nm, "ctlread.c", progs=[Prog("control.c")], repo=CTL_REPO,
+            lib=["ideal_substdio.c", "ideal_getln.c", "arena_stralloc.c"], sysrename=["close"],
+            defines={"KIND": kind, "ARENA_SLOTS": 3, "M": 2},
+            grid=[{"N": n, "ARENA_CAP": 2 * n + 4} for n in ns],     # slack: a reader that keeps too much fails the comparison, not the sizing check
+            unwind_default=lambda p: p["N"] + 4, unwind=lambda p: {"vmain~stale_sa[i]": p["ARENA_CAP"] + 1}, timeout=900,
+            backend="cadical" if kind == 2 else "minisat",     # measured at the largest quick point: readint 37 s cadical / 303 s minisat, readfile 194 s cadical / 54 s minisat
+            functions=["control.c:control_init", "control.c:control_readfile", "control.c:control_readline", "control.c:control_rldef",
+                       "control.c:control_readint", "control.c:striptrailingwhitespace", "scan_ulong.c", "stralloc_*.c"],
+            stubs=["getln/substdio: ideal stream (C20 l0 lemmas)", "open_read: exists / ENOENT / EIO per file, path checked", "close",
+                   "stralloc_ready/readyplus: arena"],
+            assumes=["control file of exactly N bytes (grid), any byte values; control/me of 2 bytes, any values, present/absent/unreadable; "
+                     "at most one read() error, before any byte or at end of file; flagme 0/1; literal default absent or 0..2 bytes; allocation does not fail",
+                     "documents silent, both behaviours accepted: lines containing NUL; numeric files whose first line is not a plain decimal number"],
+            outside=["longer files", "allocation failure (-1)", "a read error while control/me is read"],
+            claim=claim, expect_witnesses=wit))
+    obls.append(Obl("ipme_is_ref", "ipme.c", progs=[Prog("ipme.c")], repo=["byte_copy.c"],
+        sysrename=["socket", "ioctl", "close"],
+        grid=[{"NE": n} for n in (0, 1, 2, 3)], unwind_default=6, timeout=300,
+        functions=["ipme.c:ipme_is", "ipme.c:ipme_init (only the early return for a table that is ready)"],
+        stubs=["socket/ioctl/close, ipalloc_readyplus/append, stralloc_ready: must not be reached"],
+        assumes=["table of local addresses pre-filled by the harness: NE entries (grid 0..3, capacity 3), every byte symbolic, stale entries beyond len symbolic; "
+                 "looked-up address: 4 symbolic bytes"],
+        outside=["ipme_init(): enumeration of the interfaces through socket()/ioctl(SIOCGIFCONF, SIOCGIFFLAGS) - kernel interface code, not encoded; "
+                 "that 0.0.0.0 is always in the table (done by ipme_init)", "tables of more than 3 addresses"],
+        claim="ipme_is() answers 1 iff the address equals (all four bytes) one of the NE entries of the table of local addresses, else 0; "
+              "table and argument are left unchanged",
+        expect_witnesses=lambda p: ["not_local"] + (["local", "local_last_entry", "differs_in_last_byte_only"] if p["NE"] >= 1 else [])
+                                   + (["stale_entry_beyond_len_ignored"] if p["NE"] < 3 else [])))
+    obls.append(Obl("newmrh_keys", "newmrh.c", progs=[Prog("qmail-newmrh.c", main_as="newmrh_main")],
+        repo=["case_lowerb.c", "stralloc_pend.c", "stralloc_catb.c", "byte_copy.c", "substdio.c"],
+        lib=["ideal_substdio.c", "ideal_getln.c", "arena_stralloc.c"], defines={"ARENA_SLOTS": 1},
+        sysrename=["umask", "chdir", "fsync", "close", "rename", "_exit"],
+        grid=[{"N": n, "ARENA_CAP": n + 3} for n in ([0, 3, 5, 6] if q else [0, 1, 2, 3, 4, 5, 6, 7, 8])],
+        unwind_default=lambda p: p["N"] + 4, timeout=900,
+        functions=["qmail-newmrh.c:main", "qmail-newmrh.c:die_read", "qmail-newmrh.c:die_write", "case_lowerb.c:case_lowerb"],
+        cuts=["strerr_die -> _exit(status) (complaint text not checked)", "cdbmss_start/add/finish -> recorder (keys, data length, call order); the writer itself is C11 cdb_writer / cdb_round_trip"],
+        stubs=["getln/substdio: ideal streams", "open_read/open_trunc/umask/chdir/fsync/close/rename/_exit: each may fail (EIO), order and paths checked",
+               "stralloc_ready*: arena"],
+        assumes=["control/morercpthosts of exactly N bytes (grid), any byte values; a read error before any byte or at end of file; any combination of "
+                 "failing chdir/open/writer/fsync/close/rename calls", "files containing NUL: keys not compared (documents silent)"],
+        outside=["longer files", "allocation failure", "the cdb file format (C11)"],
+        claim="qmail-newmrh hands the cdb writer exactly one key per entry of control/morercpthosts (same reader as control_readfile_ref: trailing "
+              "spaces/tabs removed, empty lines and # comments dropped, last line without newline counts), in file order, lower-cased, with empty data; "
+              "then finish, fsync, close, rename .tmp -> .cdb in that order; any failure exits 111 and the rename does not happen",
+        expect_witnesses=lambda p: ["complaint_111", "read_error_111", "close_failed_111", "rename_failed_111", "installed", "empty_database_installed"]
+                                   + (["add_failed_111", "nul_in_file_undetermined", "upper_case_lowered", "last_line_without_newline_counts"] if p["N"] >= 1 else [])
+                                   + (["two_keys", "comment_then_key", "trailing_blanks_removed"] if p["N"] >= 3 else [])))
+    def rh_wit(p):
+        n, r = p["N"], p["R"]
+        w = ["init_trouble", "read_error", "cdb_open_error", "no_rcpthosts_file", "no_at_sign", "refused", "empty_list_refuses", "done"]
+        if r >= 2: w += ["morercpthosts_match", "cdb_trouble"]
+        if r >= 2 and n >= 1: w += ["mixed_case_match"]
+        if r >= 2 and n >= 2: w += ["entry_with_trailing_blank_matches"]
+        if r >= 2 and n >= 3: w += ["listed_in_two_line_file", "match_after_comment_line"]
+        if r >= 4 and n >= 2: w += ["wildcard_match"]
+        return w
+    obls.append(Obl("rcpthosts_from_file", "rhfile.c", progs=[Prog("rcpthosts.c"), Prog("control.c")],
+        repo=["constmap.c", "case_diffb.c", "case_lowerb.c", "byte_rchr.c", "byte_copy.c", "stralloc_opys.c", "stralloc_opyb.c", "stralloc_cat.c",
+              "stralloc_catb.c", "stralloc_copy.c", "stralloc_pend.c", "scan_ulong.c", "substdio.c"],
+        lib=["ideal_substdio.c", "ideal_getln.c", "arena_stralloc.c"], defines={"ARENA_SLOTS": 3},
+        sysrename=["malloc", "free", "close"], backend="minisat",
+        grid=[{"N": n, "R": r, "ARENA_CAP": max(n, r) + 3} for (n, r) in ([(3, 4), (4, 4), (4, 5), (5, 5)] if q else [(3, 3), (4, 4)])],
+        # tight per-loop bounds, each proved sufficient by its unwinding assertion: at most (N+1)/2 entries, keys no longer than the domain
+        unwind=lambda p: {"constmap_init~for (h = 0": 66, "constmap_init~while (h &&": 1, "constmap": (p["N"] + 1) // 2 + 1,
+                          "case_diffb": p["R"], "hash": max(p["N"], p["R"]) + 1, "rcpthosts": p["R"] + 1, "case_lowerb": p["R"] + 1,
+                          "byte_rchr": p["R"] // 4 + 2, "byte_copy": max(p["N"], p["R"]) // 4 + 2},
+        unwind_default=lambda p: max(p["N"], p["R"]) + 3, timeout=1200,
+        functions=["rcpthosts.c:rcpthosts_init", "rcpthosts.c:rcpthosts", "control.c:control_readfile", "control.c:striptrailingwhitespace",
+                   "constmap.c:constmap_init", "constmap.c:constmap", "constmap.c:hash", "case_diffb.c", "case_lowerb.c", "byte_rchr.c", "stralloc_*.c"],
+        cuts=["cdb_seek -> exact search over a symbolic table of lower-cased keys, may fail (keys: newmrh_keys; format: C11)"],
+        stubs=["getln/substdio: ideal stream", "open_read: rcpthosts and morercpthosts.cdb each present / ENOENT / EIO", "close",
+               "malloc/free: five typed fixed arrays in call order", "stralloc_ready/readyplus: arena"],
+        assumes=["control/rcpthosts of exactly N bytes (grid), any byte values except NUL; one read error anywhere; recipient of exactly R bytes (grid), "
+                 "any values except NUL; morercpthosts.cdb absent / unreadable / one key of <= 3 bytes without upper case; one cdb read error at any lookup"],
+        outside=["longer files and recipients", "files containing NUL (documents silent)", "allocation failure"],
+        claim="for every rcpthosts file of N bytes and recipient of R bytes: rcpthosts_init()+rcpthosts() allow the recipient iff there is no file, no @, "
+              "or its domain equals - or ends with a dot-entry among - the entries the documented reader takes from the file (or the cdb keys), "
+              "case-insensitively; read/open trouble is -1, never an empty list",
+        expect_witnesses=rh_wit))
     return obls
